@@ -8,6 +8,8 @@ INVARIANT TryEachClosed
 INVARIANT AcceptedMatchMeansNamedContent
 INVARIANT AlternativesLeaveOnlyCommonKnowledge
 INVARIANT NothingReadBeforeSet
+INVARIANT NewSequenceForgets
 PROPERTY SetNeverOverwrites
+PROPERTY EmptySelectionChangesNothing
 VIEW View
 CHECK_DEADLOCK FALSE
